@@ -37,6 +37,9 @@ func init() {
 		c03ListenerPairs(c)
 		c03TransportGuards(c)
 		c03AdmittedStates(c, "C03.5b", nil)
+		c11ReleaseAtClose(c, "C03.8") // the caller's close callback (→ OnClose("forced close")) is run on every polling DoClose path
+		c12CallbackBeforeTeardown(c)  // … and by websocket/webtransport DoClose, handed over by transport.Close
+		c12CloseWaitsForBuffer(c)     // closeTransport's callback reports 'forced close'
 	})
 }
 
